@@ -177,6 +177,9 @@ Proof.
   apply IH; [exact HK | apply reach_step; assumption | apply bad_step; assumption | exact HC].
 Qed.
 
+Lemma no_dangling_init : forall K nt ops, good K = true -> contract K (st0 nt) ops -> bad (mrun K (st0 nt) ops) = false.
+Proof. intros K nt ops HK HC. exact (no_dangling K ops (st0 nt) HK (reach_init K nt) eq_refl HC). Qed.
+
 (* ------------------------------------------------------------------ (c) sink lifetime = owners (any configuration) *)
 Definition referenced (s : st) (S : N) : Prop := In S (map snd (hnd s)) \/ exists L, In L (lgs s) /\ In S (l_sinks L).
 
